@@ -5,7 +5,7 @@
    still referenced by an unacknowledged section is never evicted. *)
 From H3V Require Import Base.Bytes Gen.GenQpack Model.Vas Model.DynTable Model.QInstr Model.QEncoder Model.QDecoder Model.QSystem
   Proofs.VasProofs Proofs.QPrefixProofs Proofs.AMapLemmas Proofs.DynTableProofs Proofs.QEncoderProofs Proofs.QSystemProofs
-  Proofs.QSimulationProofs Proofs.QDenotationProofs Proofs.QAgreementProofs.
+  Proofs.QSimulationProofs Proofs.QDenotationProofs Proofs.QAgreementProofs Proofs.QAccountingProofs.
 
 (* ------------------------------------------------------------------ T1: capacity *)
 (* the table invariant dt_ok (size accounting curr_size = sum of entry sizes <= max_size, index space, both look-up maps
@@ -108,17 +108,58 @@ Theorem C20_encode_total :
     exists t' e, enc_encode (s_enc s') sid fs = (t', Ok e).
 Proof. exact sys_encode_total. Qed.
 
-(* agreement.  FULL STATEMENT (target): in every state reachable by a history of encodes, deliveries, honest decodes and
-   feedback deliveries, every emitted section that has not been acknowledged decodes to its original field list when its
-   Required Insert Count has been reached and to MissingRefs before.
-   PROVED HERE (partial): the same conclusion for every reachable state (cancellations and bare decodes allowed), under two
-   premises about that state which the full statement would derive from the acknowledgement accounting:
+(* AGREEMENT, full strength.  For every capacity, blocked-stream limit, workload and schedule - any history made of
+   Encoder::encode calls, deliveries of any number of encoder-stream instructions, decode attempts (honest: stream order
+   respected, acknowledged once; or bare decode_header calls) and deliveries of any number of decoder-stream instructions
+   (acknowledgements arbitrarily late) - every emitted section that the decoder has not yet decoded and acknowledged
+   decodes to exactly its original field list when the decoder's insert count has reached its Required Insert Count, and
+   is reported as MissingRefs(Required Insert Count) before.  (Assumes fewer than 2^62 insertions; no Stream Cancellation,
+   no capacity change: see the two _refuted theorems.) *)
+Theorem C20_agreement :
+  forall cap blocked s os s' j sec,
+    sys_init cap blocked = Some s -> forallb honest_op os = true -> fst (sys_run s os) = s' ->
+    v_inserted (dt_vas (s_enc s')) < 2 ^ 62 ->
+    nth_error (s_secs s') j = Some sec -> sec_done sec = false ->
+    dec_decode_header (s_dec s') (sec_block sec) =
+      if v_inserted (dt_vas (s_dec s')) <? sec_required sec then Err (DEMissingRefs (sec_required sec))
+      else Ok (sec_fields sec, 0 <? sec_required sec).
+Proof. exact sys_agreement. Qed.
+
+(* the same as seen by the honest decoder at any point of such a history *)
+Theorem C20_honest_decode_outcome :
+  forall cap blocked s os s1 j,
+    sys_init cap blocked = Some s -> forallb honest_op os = true -> fst (sys_run s os) = s1 ->
+    v_inserted (dt_vas (s_enc s1)) < 2 ^ 62 ->
+    snd (sys_step s1 (ODecode j true)) =
+      match nth_opt (s_secs s1) j with
+      | None => RNoSuchSection
+      | Some sec =>
+          if sec_done sec then RAlreadyDone
+          else if earlier_pending (s_secs s1) j (sec_sid sec) then RHeld
+          else if v_inserted (dt_vas (s_dec s1)) <? sec_required sec then RDecErr (DEMissingRefs (sec_required sec))
+          else RDecoded (sec_fields sec) (0 <? sec_required sec)
+      end.
+Proof. exact sys_honest_decode_outcome. Qed.
+
+(* T2, second form: in such histories the encoder never evicts an entry the decoder has not received, and every entry a
+   not yet acknowledged section refers to is in the encoder's table with a positive reference count *)
+Theorem C20_unacknowledged_entries_protected :
+  forall cap blocked s os s',
+    sys_init cap blocked = Some s -> forallb honest_op os = true -> fst (sys_run s os) = s' ->
+    v_inserted (dt_vas (s_enc s')) < 2 ^ 62 ->
+    v_dropped (dt_vas (s_enc s')) <= v_inserted (dt_vas (s_dec s')) /\
+    (forall j sec a, nth_error (s_secs s') j = Some sec -> sec_done sec = false -> In a (sec_indices cap sec) ->
+                     vas_live (dt_vas (s_enc s')) a /\ dt_is_tracked (s_enc s') a = true).
+Proof. exact sys_no_early_eviction. Qed.
+
+(* with Stream Cancellation in the history (or any other reachable state): the same conclusion under two premises
+   about the state, which C20_unacknowledged_entries_protected establishes for cancellation-free histories:
    (1) the entries the section refers to (read off its wire form) are still in the encoder's table, and
    (2) the encoder has not evicted an entry the decoder has not received yet (dropped_enc <= inserted_dec).
-   (1) is what T2 protects while the section is unacknowledged; (2) is RFC 9204 2.1.1 ("an entry cannot be evicted before its
-   insertion is acknowledged") and FAILS in h3 after Stream Cancellation, see C20_cancel_blocked_refuted.
-   Also assumed: fewer than 2^62 insertions. *)
-Theorem C20_agreement_partial :
+   (2) is RFC 9204 2.1.1 ("an entry cannot be evicted before its insertion is acknowledged") and FAILS in h3 after
+   Stream Cancellation, see C20_cancel_blocked_refuted.  What is missing for a full statement with cancellation:
+   nothing can be proved, the statement is false there. *)
+Theorem C20_agreement_any_state_partial :
   forall cap blocked s os s' j sec,
     sys_init cap blocked = Some s -> existsb is_resize os = false -> fst (sys_run s os) = s' ->
     nth_error (s_secs s') j = Some sec ->
@@ -156,6 +197,18 @@ Example C20_run_inhabited :
          RDecErr (DEMissingRefs 1); RDelivered 1 (Some (DIncrement 1)); RDecoded [([97], [98])] true].
 Proof. vm_compute. reflexivity. Qed.
 
+Example C20_agreement_inhabited :
+  match sys_init 100 2 with
+  | Some s =>
+      let os := [OEncode 0 [([97], [49]); ([98], [50])]; ODecode 0 true; ODeliver 9; ODecode 0 true; OFeedback 9;
+                 OEncode 4 [([99], [51])]; ODecode 1 true] in
+      let s' := fst (sys_run s os) in
+      (forallb honest_op os, map sec_done (s_secs s'), map sec_required (s_secs s'),
+       v_inserted (dt_vas (s_dec s')), v_dropped (dt_vas (s_enc s')), nth 6 (snd (sys_run s os)) RQueued)
+  | None => (false, [], [], 0, 0, RQueued)
+  end = (true, [true; false], [2; 3], 2, 1, RDecErr (DEMissingRefs 3)).
+Proof. vm_compute. reflexivity. Qed.
+
 Example C20_prefix_wrap_inhabited :
   hp_new 9 3 9 128 = Ok (mkPrefix 2 true 5) /\ hp_get (mkPrefix 2 true 5) 7 128 = Ok (9, 3).
 Proof. split; vm_compute; reflexivity. Qed.
@@ -183,5 +236,8 @@ Print Assumptions C20_prefix_roundtrip_no_refs.
 Print Assumptions C20_prefix_panic_sites.
 Print Assumptions C20_decoder_follows_encoder.
 Print Assumptions C20_encode_total.
-Print Assumptions C20_agreement_partial.
+Print Assumptions C20_agreement.
+Print Assumptions C20_honest_decode_outcome.
+Print Assumptions C20_unacknowledged_entries_protected.
+Print Assumptions C20_agreement_any_state_partial.
 Print Assumptions C20_cancel_blocked_refuted.
